@@ -188,3 +188,22 @@ Theorem C15_parse_bang_rx : forall o,
   o <> [] -> hd0 o <> 64 -> parse_operator (33 :: o) = (str "!@rx", str "rx", trim_space o).
 Proof. exact parse_operator_bang_rx. Qed.
 Print Assumptions C15_parse_bang_rx.
+
+(* ---- @ipMatch / @ipMatchFromFile (IPv4 forms; net.ParseCIDR / netip.parseIPv4Fields modelled) ---- *)
+(* matches exactly when the value parses as a dotted IPv4 address that lies in the block of some
+   comma-separated item that parses (items that do not parse are skipped, nothing is rejected) *)
+Theorem C15_ipMatch_exact : forall arg v,
+  ipm_eval (ipm_new arg) v = true <->
+  exists ip it net, parse_ipv4 v = Some ip /\ In it (split_byte 44 arg) /\ ipm_item it = Some net
+                    /\ IpSpec.in_block net ip.
+Proof. exact ipmatch_exact. Qed.
+Print Assumptions C15_ipMatch_exact.
+
+(* containment under the mask = membership of the 2^(32-n) addresses sharing the first n bits *)
+Theorem C15_ipMatch_block : forall net ip, net_contains net ip = true <-> IpSpec.in_block net ip.
+Proof. exact net_contains_iff. Qed.
+Print Assumptions C15_ipMatch_block.
+
+Theorem C15_ipMatch_host : forall a ip, IpSpec.in_block (a, 32) ip <-> ip = a.
+Proof. exact in_block_32. Qed.
+Print Assumptions C15_ipMatch_host.
